@@ -240,7 +240,7 @@ theorem withRec_fst_sublist (m : KV) (ids : List Nat) : ((withRec m ids).map Pro
     simp only [withRec, List.filterMap_cons]
     cases hr : edgeAt m x with
     | none => simp only [Option.map_none]; exact List.Sublist.cons _ ih
-    | some r => simp only [Option.map_some, List.map_cons]; exact List.Sublist.cons₂ _ ih
+    | some r => simp only [Option.map_some, List.map_cons]; exact List.Sublist.cons_cons _ ih
 
 /-- the stored record of `e`, a dummy when there is none -/
 def recD (m : KV) (e : Nat) : EdgeRec := (edgeAt m e).getD ⟨0, 0, true, 0, 0⟩
